@@ -82,8 +82,12 @@ class Segment(CoreSummaries, Contract):
         g['time_reads'] = VTuple([])
 
     def unit(self, I, index):
-        rel, node = index.function(self.qual)
-        f = VFunc(self.qual, node, bound=None)
+        # the method the class resolves to (an inherited method is verified as the code the class actually runs)
+        m = index.find_method(self.cls, self.method)
+        if m is None:
+            raise KeyError('locator does not resolve: %s.%s' % (self.cls, self.method))
+        self.qual_resolved, node = m
+        f = VFunc(self.qual_resolved, node, bound=None)
 
         def run(I):
             st = State()
@@ -100,7 +104,7 @@ class Segment(CoreSummaries, Contract):
             st.ghost['_pre'] = (self.pre_state, self.pre_args)
             I.contract_pre = self.pre_state
             I.contract_pre_frame = self.pre_frame(I)
-            fr = Frame(self.qual, loc)
+            fr = Frame(self.qual_resolved, loc)
             res = self.resume(I, loc)
             try:
                 v = I.run_segment(f, fr, self.start, res)
